@@ -1,0 +1,32 @@
+//go:build verif
+
+package webserver
+
+import (
+	"net/http"
+	"os"
+)
+
+// Exports for the `sig` driver (C11, WHIP part): the two WHIP handlers as
+// the mux calls them.  Add-only.
+
+// VerifWhipEndpoint runs the handler of POST/OPTIONS /group/<g>/.whip.
+func VerifWhipEndpoint(w http.ResponseWriter, r *http.Request) {
+	whipEndpointHandler(w, r)
+}
+
+// VerifWhipResource runs the handler of /group/<g>/.whip/<session>.
+func VerifWhipResource(w http.ResponseWriter, r *http.Request) {
+	whipResourceHandler(w, r)
+}
+
+// VerifSigSetStaticRoot opens the static root as Serve does (notFound reads
+// 404.html through it).
+func VerifSigSetStaticRoot(dir string) error {
+	root, err := os.OpenRoot(dir)
+	if err != nil {
+		return err
+	}
+	staticRoot = root
+	return nil
+}
